@@ -98,7 +98,7 @@ class Container(BaseResource):
         return ContainerGet(self, amount)
 
     def _do_put(self, event: ContainerPut) -> bool:
-        if self._capacity - self._level >= event.amount:
+        if self._level + event.amount <= self._capacity:
             self._level += event.amount
             event.succeed()
             return True
